@@ -23,6 +23,26 @@ def log(*a):
     print(*a, file=sys.stderr, flush=True)
 
 
+def ensure_disk(min_free_gb=30):
+    try:
+        cache = subprocess.run(["go", "env", "GOCACHE"], env=GOENV, stdout=subprocess.PIPE, text=True).stdout.strip() or os.path.expanduser("~/.cache/go-build")
+        if not os.path.isdir(cache):
+            return
+        st = os.statvfs(cache)
+        free = st.f_bavail * st.f_frsize / 1e9
+        if free < min_free_gb:
+            log("disk: %.1f GB free -- emptying the go build cache" % free)
+            subprocess.run(["go", "clean", "-cache"], env=GOENV, stdout=subprocess.DEVNULL, stderr=subprocess.DEVNULL)
+    except Exception as e:      # never let housekeeping decide a verdict
+        log("disk check failed:", e)
+
+
+def no_space(text):
+    """A compiler / tool output that failed because the disk is full says nothing about the code."""
+    if "no space left on device" in (text or ""):
+        raise Broken("the disk is full (no space left on device): " + text[-400:])
+
+
 class Scratch:
     """mkdtemp'ed scratch directory, removed at exit (nothing is kept under /tmp)."""
 
@@ -30,6 +50,11 @@ class Scratch:
         base = "/dev/shm" if os.path.isdir("/dev/shm") and os.environ.get("VERIF_SCRATCH_SHM", "1") == "1" else None
         self.path = tempfile.mkdtemp(prefix="verif-%s-" % tag, dir=os.environ.get("VERIF_SCRATCH", base))
         atexit.register(self.cleanup)
+        # the go tool's temporary build directories go into the scratch directory (removed with it) ...
+        GOENV["GOTMPDIR"] = self.sub("gotmp")
+        # ... and its build cache, which every run grows by a few hundred MB (each scratch module has a path of its own),
+        # is emptied when the disk runs low: a full disk makes compilations fail for a reason that is not the code's
+        ensure_disk()
 
     def cleanup(self):
         if os.environ.get("VERIF_KEEP"):
